@@ -242,6 +242,16 @@ def runFn {α} (ops : ElemOps α) (prog : Prog) (env : Env) : Nat → Fn → Lis
         (fun m'' => { m'' with loc := m'.loc, ret := m'.ret })) env arg (prog f)
       { m with loc := locals, ret := none })
 
+/-- a nested call at depth `k`: the callee starts with fresh locals; the caller's locals and `return`
+    status are restored afterwards -/
+def callAt {α} (ops : ElemOps α) (prog : Prog) (env : Env) (k : Nat) : CallFn α :=
+  fun g a m' => (runFn ops prog env k g [] a m').map (fun m'' => { m'' with loc := m'.loc, ret := m'.ret })
+
+theorem runFn_succ {α} (ops : ElemOps α) (prog : Prog) (env : Env) (k : Nat) (f : Fn)
+    (locals : List (String × Nat)) (arg : Option Cont) (m : M α) :
+    runFn ops prog env (k + 1) f locals arg m =
+      execOps ops (callAt ops prog env k) env arg (prog f) { m with loc := locals, ret := none } := rfl
+
 /-- meaning of the float chain over ℚ -/
 def FE.evalQ (n : Nat) : FE → Rat
   | .sizeD _ => (n : Rat)
